@@ -201,7 +201,7 @@ func cmdCheck(args []string) {
 			}
 			found := false
 			for _, o := range g.obls {
-				if o.Src == cl.Src && o.Label == cl.Label {
+				if o.Label == cl.Label && (o.Src == cl.Src || (cl.Kind == "callsonly" && o.Kind == "calls")) {
 					found = true
 					break
 				}
@@ -419,6 +419,8 @@ func writeReplay(w *World, path, prop string, o *Obligation, repo string) string
 	suffix := " no-failing-input-found"
 	if o.Status == "failed" && o.Model != "" {
 		fmt.Fprintf(&sb, "\ncounterexample model (values of the function's parameters and heap at entry):\n%s\n", modelSummary(o.Model))
+	} else if o.ModelQuery != "" {
+		fmt.Fprintf(&sb, "\nno back end decided the full obligation; its quantifier-free part has a model, used below as a candidate counterexample\n")
 	} else {
 		fmt.Fprintf(&sb, "\nno counterexample: no back end could decide the obligation within the time limit (%s)\n", o.Model)
 	}
